@@ -4,6 +4,9 @@
 they never read /verif)."""
 import json, os, sys, re
 rnd = sys.argv[1]
+BB = '--bb' in sys.argv
+if BB:
+    sys.argv.remove('--bb')
 props = {json.loads(l)['id']: l.strip() for l in open('/verif/properties.jsonl')}
 names = {}
 for d in sorted(os.listdir('/verif/seeded')):
@@ -15,6 +18,11 @@ T = open('/verif/tools/seed_prompt.tpl').read()
 os.makedirs('/tmp/seedprompts', exist_ok=True)
 for p in sys.argv[2:]:
     wid = 'R%s-%s' % (rnd, p)
-    t = T.replace('@WID@', wid).replace('@PROP@', props[p]).replace('@NAMES@', ', '.join(names.get(p, [])) or '(none)').replace('@COVER@', COVER)
+    if BB:
+        # black box: the property text and a scratch worktree only
+        T2 = re.sub(r'@COVER@.*?\n\n', '', T, flags=re.S)
+    else:
+        T2 = T
+    t = T2.replace('@WID@', wid).replace('@PROP@', props[p]).replace('@NAMES@', ', '.join(names.get(p, [])) or '(none)').replace('@COVER@', COVER)
     open('/tmp/seedprompts/%s.txt' % p, 'w').write(t)
     print(wid)
